@@ -5,9 +5,9 @@ static struct Res *mk(void) {
   size_t qc; __CPROVER_assume(qc >= 1 && qc <= QMAXMAX); g_qcap = qc;
   struct Res *r = malloc(sizeof(*r)); __CPROVER_assume(r != 0);
   r->m_queue.items = malloc(QMAX * sizeof(struct ResOp)); __CPROVER_assume(r->m_queue.items != 0);
-  g_self = r; return r;
+  g_self = r; g_mheld = 0; return r;
 }
-static void after(void) { __CPROVER_assert(!g_notify_pending, "C02 every admission is followed by a notification before the function returns"); }
+static void after(void) { __CPROVER_assert(!g_mheld, "C15 the mutex is released when the operation returns"); __CPROVER_assert(!g_notify_pending, "C02 every admission is followed by a notification before the function returns"); }
 void h_Res_lock_read_other(void) { struct Res *r = mk(); g_me = 0; g_mode = 0; g_myType = OP_READ; g_waited = 0; Res__lock(r, OP_READ); after(); CANARY; }
 void h_Res_lock_read_owner(void) { struct Res *r = mk(); g_me = 1; g_mode = 0; g_myType = OP_READ; g_waited = 0; Res__lock(r, OP_READ); after(); CANARY; }
 void h_Res_lock_write_other(void) { struct Res *r = mk(); g_me = 0; g_mode = 0; g_myType = OP_WRITE; g_waited = 0; Res__lock(r, OP_WRITE); after(); CANARY; }
